@@ -416,8 +416,8 @@ def NDX():
 
 
 def NEST2():
-    """Every binning type directly inside every binning type, with a leaf that is not a Count (the library picks a
-    specialised class from the pair of types and from what the leaves are at the time it looks)."""
+    """Every binning type directly inside every binning type, with a leaf that is not a Count and with a Count (the library
+    picks a specialised class from the pair of types and from what the leaves are at the time it looks)."""
     sy = {"t": "Sum", "q": "y"}
     mk = {
         "Bin": lambda v, q: {"t": "Bin", "p": BIN_CFG[0], "q": q, "v": v},
@@ -427,6 +427,7 @@ def NEST2():
         "Categorize": lambda v, q: {"t": "Categorize", "q": "c", "v": v},
     }
     out = [mk[o](mk[i](sy, "y"), "x") for o in mk for i in mk]
+    out += [mk[o](mk[i]({"t": "Count"}, "y"), "x") for o in mk for i in mk]
     for leaf in ({"t": "Average", "q": "y"}, {"t": "Deviate", "q": "y"}, {"t": "Minimize", "q": "y"},
                  {"t": "Bag", "q": "y", "range": "N"}):
         out.append(mk["SparselyBin"](mk["SparselyBin"](leaf, "y"), "x"))
